@@ -1,5 +1,7 @@
 pub mod frames;
+pub mod h2;
 pub mod http1;
+pub mod huffman_table;
 pub mod sig;
 pub mod strat;
 pub mod tls;
